@@ -233,6 +233,13 @@ def edge_mdps():
              (('a', ((2, one),), F(-1000)),),        # the state that lacks action b is worth less than -708
              (('a', ((2, one),), F(0)),))
         yield ('mdp', 3, T, (2,), ((0, one),), g)
+    # (7) probabilities that are not dyadic fractions (1/3, 2/3; 1/5, 7/10, 1/10: float sums of such rows are not exactly 1)
+    for g in (F(9, 10), F(1)):
+        for probs in ((F(1, 5), F(7, 10), F(1, 10)), (F(1, 3), F(1, 3), F(1, 3)), (F(7, 10), F(1, 5), F(1, 10))):
+            T = ((('a', ((0, probs[0]), (1, probs[1]), (2, probs[2])), F(-1)), ('b', ((1, F(1, 3)), (2, F(2, 3))), F(-2))),
+                 (('a', ((0, F(2, 3)), (2, F(1, 3))), F(-1)), ('b', ((1, probs[0] + probs[1]), (2, probs[2])), (F(-1), F(-3)))),
+                 (('a', ((2, one),), F(0)),))
+            yield ('mdp', 3, T, (2,), ((0, F(1, 3)), (1, F(2, 3))), g)
     # (5) corridors of 6 and 7 states ending in a negative self-loop / a goal
     for n in (6, 7):
         for g in (F(9, 10), F(1)):
